@@ -207,7 +207,211 @@ def lean_lines(sites) -> list[str]:
     return lines
 
 
+# ----------------------------------------------------------------------------------------------------------------------
+# index guards (round 4, after the seeded changes C11-r4m1 / C11-r4m2): the tests that DOMINATE a value-indexed access inside a
+# kernel loop.  The native-guard extraction of guards.py only sees the tests in front of the kernel call in `py_*`; the tests
+# inside the loops (`if (label >= 0 && label < maxlabel) result[label] = …`, `if (val < 0 || val2 < 0) throw …; ++res.at(val, val2)`)
+# are what keeps a data-dependent index inside its table.  For each target below: the index expressions of the access and, as
+# atoms, (a) the conjuncts of every `if (…) {` block that encloses the access, (b) the NEGATED disjuncts of every earlier
+# `if (…)` of an enclosing block whose body leaves (throw / return / continue / break).  Atoms: ("geZero", x, ""), ("lt", x, bound),
+# ("other", text, "").  `Generated.indexGuardTable` lists them; `C11_labeled_fold_safe` / `C11_cooccurence_index_guarded` decide that
+# each index expression has its lower-bound atom (and the fold its upper bound): a kernel that loses the test breaks the build.
+
+INDEX_TARGETS = [
+    ('_labeled.cpp', 'labeled_foldl', r'\bresult\s*\[', '[', ']'),
+    ('features/_texture.cpp', 'cooccurence', r'\bres\s*\.\s*at\s*\(', '(', ')'),
+]
+
+
+def _norm(e: str) -> str:
+    e = re.sub(r'\s+', '', e)
+    while e.startswith('(') and _balanced_outer(e):
+        e = e[1:-1]
+    m = re.fullmatch(r'(?:npy_intp|int|long|size_t|unsigned)\((.*)\)', e)
+    if m and _balanced(m.group(1)):
+        e = m.group(1)
+    return e
+
+
+def _balanced(e: str) -> bool:
+    d = 0
+    for c in e:
+        d += c == '('
+        d -= c == ')'
+        if d < 0:
+            return False
+    return d == 0
+
+
+def _balanced_outer(e: str) -> bool:
+    """e starts with '(' and that parenthesis closes at the very end"""
+    d = 0
+    for i, c in enumerate(e):
+        d += c == '('
+        d -= c == ')'
+        if d == 0:
+            return i == len(e) - 1
+    return False
+
+
+def _split_top(e: str, op: str):
+    out, d, cur, i = [], 0, '', 0
+    while i < len(e):
+        c = e[i]
+        if c in '([':
+            d += 1
+        elif c in ')]':
+            d -= 1
+        if d == 0 and e.startswith(op, i):
+            out.append(cur)
+            cur = ''
+            i += len(op)
+            continue
+        cur += c
+        i += 1
+    out.append(cur)
+    return [x for x in out if x.strip()]
+
+
+def _atom(test: str, negated: bool):
+    t = _norm(test)
+    m = re.fullmatch(r'(.+?)(>=|<=|<|>|==|!=)(.+)', t)
+    if not m:
+        return ('other', ('!' if negated else '') + t, '')
+    a, op, b = _norm(m.group(1)), m.group(2), _norm(m.group(3))
+    if negated:
+        op = {'<': '>=', '>=': '<', '>': '<=', '<=': '>', '==': '!=', '!=': '=='}[op]
+    if op == '>=' and b == '0':
+        return ('geZero', a, '')
+    if op == '<=' and a == '0':
+        return ('geZero', b, '')
+    if op == '<':
+        return ('lt', a, b)
+    if op == '>':
+        return ('lt', b, a)
+    return ('other', a + op + b, '')
+
+
+def _paren_span(src: str, i: int, open_: str, close: str) -> int:
+    d = 0
+    for k in range(i, len(src)):
+        if src[k] == open_:
+            d += 1
+        elif src[k] == close:
+            d -= 1
+            if d == 0:
+                return k
+    raise TranslationError('unbalanced parentheses')
+
+
+def _resolve_alias(body: str, name: str) -> str:
+    """`const int label = *literator;` — an index that is a local initialised once is reported under its own name; the alias target is
+    appended so that the table shows what it stands for"""
+    m = re.search(r'\b(?:const\s+)?[\w:<>]+\s+' + re.escape(name) + r'\s*=\s*([^;]+);', body)
+    return _norm(m.group(1)) if m else ''
+
+
+def extract_index_guards(repo: Path):
+    rows = []
+    for rel, fn, pat, op, cl in INDEX_TARGETS:
+        p = repo / 'mahotas' / rel
+        if not p.exists():
+            raise TranslationError(f'{rel} not found')
+        src = _strip_cpp_comments(p.read_text())
+        bodies = [(a, b) for name, a, b in _cpp_functions(src) if name == fn]
+        if not bodies:
+            raise TranslationError(f'{rel}: function {fn} not found')
+        a, b = bodies[0]
+        body = src[a:b]
+        m = re.search(pat, body)
+        if not m:
+            raise TranslationError(f'{rel}:{fn}: the indexed access is no longer recognised')
+        pos = m.start()
+        end = _paren_span(body, m.end() - 1, op, cl)
+        idx = [_norm(x) for x in _split_top(body[m.end():end], ',')]
+        atoms = []
+        # walk backwards: blocks enclosing `pos`, and the leaving `if`s that precede it inside them
+        depth = 0
+        k = pos
+        block_starts = []
+        while k > 0:
+            k -= 1
+            c = body[k]
+            if c == '}':
+                depth += 1
+            elif c == '{':
+                if depth == 0:
+                    block_starts.append(k)
+                else:
+                    depth -= 1
+        for bs in block_starts:
+            head = body[:bs].rstrip()
+            hm = re.search(r'\bif\s*\($', head[:head.rfind('(') + 1]) if head.endswith(')') else None
+            if head.endswith(')'):
+                # find the matching '(' of the trailing ')'
+                d, j = 0, len(head) - 1
+                while j >= 0:
+                    if head[j] == ')':
+                        d += 1
+                    elif head[j] == '(':
+                        d -= 1
+                        if d == 0:
+                            break
+                    j -= 1
+                if re.search(r'\bif\s*$', head[:j]):
+                    for t in _split_top(head[j + 1:-1], '&&'):
+                        atoms.append(_atom(t, False))
+            # leaving ifs between this block start and pos, at the nesting level of the block
+            seg = body[bs + 1:pos]
+            d = 0
+            i = 0
+            while i < len(seg):
+                c = seg[i]
+                if c == '{':
+                    d += 1
+                elif c == '}':
+                    d -= 1
+                elif d == 0:
+                    im = re.match(r'if\s*\(', seg[i:])
+                    if im and (i == 0 or not (seg[i - 1].isalnum() or seg[i - 1] == '_')):
+                        ce = _paren_span(seg, i + im.end() - 1, '(', ')')
+                        cond = seg[i + im.end():ce]
+                        rest = seg[ce + 1:].lstrip()
+                        if rest.startswith('{'):
+                            try:
+                                be = _paren_span(rest, 0, '{', '}')
+                            except TranslationError:       # the block is still open at the access: an ENCLOSING if, handled above
+                                i = ce + 1
+                                continue
+                            stmt = rest[:be + 1]
+                        else:
+                            stmt = rest[:rest.find(';') + 1]
+                        if re.search(r'\b(throw|return|continue|break)\b', stmt):
+                            for t in _split_top(cond, '||'):
+                                atoms.append(_atom(t, True))
+                        i = ce
+                i += 1
+        aliases = [_resolve_alias(body, x) for x in idx]
+        rows.append((p.name, fn, idx, aliases, atoms))
+    return rows
+
+
+def index_guard_lines(rows) -> list[str]:
+    lines = ['', '/-! ## tests that dominate value-indexed accesses inside kernel loops (translator/allocs.py: extract_index_guards) -/', '',
+             '/-- (file, function, index expressions of the guarded access, what each stands for when it is a local alias, atoms that hold at the',
+             '    access: `("geZero", x, "")` = `x >= 0`, `("lt", x, b)` = `x < b`, `("other", text, "")`) -/',
+             'def indexGuardTable : List (String × String × List String × List String × List (String × String × String)) := [']
+    lines.append(',\n'.join(
+        f'  ({_q(f)}, {_q(fn)}, [{", ".join(_q(x) for x in idx)}], [{", ".join(_q(x) for x in al)}], '
+        f'[{", ".join("(" + _q(a) + ", " + _q(b) + ", " + _q(c) + ")" for a, b, c in atoms)}])'
+        for f, fn, idx, al, atoms in rows))
+    lines.append(']')
+    return lines
+
+
 if __name__ == '__main__':
     import sys
     for s in extract(Path(sys.argv[1] if len(sys.argv) > 1 else '/repo')):
         print(s)
+    for r in extract_index_guards(Path(sys.argv[1] if len(sys.argv) > 1 else '/repo')):
+        print(r)
